@@ -35,6 +35,7 @@ class Opts:
         self.big_in_additions = 0.12  # probability of a >4096-bit string/list inside an extension addition
         self.top_container = 0.65     # probability that the top-level type is a SEQUENCE/CHOICE/.. OF
         self.str_kinds = list(STR_KINDS)
+        self.edge_lengths = 0.04      # probability of a length next to the 127/128-octet boundary of a length field
         self.__dict__.update(kw)
 
 
@@ -204,7 +205,7 @@ class Gen:
 
     # ------------------------------------------------------------------ values
     def length(self, size, unit=1):
-        n = self._length(size)
+        n = self._length(size, unit)
         # keep whole values below ~150k leaf items so that one case never takes seconds
         self.budget = getattr(self, 'budget', 150000) - n
         if self.budget < 0:
@@ -212,9 +213,14 @@ class Gen:
             return lo
         return n
 
-    def _length(self, size):
+    def _length(self, size, unit=1):
         r = self.rng
         lo, hi, ext = size if size else (0, None, False)
+        if r.random() < self.o.edge_lengths:
+            cs = [126, 127, 128, 129] if unit == 1 else [unit * c + d for c in (126, 127, 128) for d in (-(unit - 1), -1, 0, 1)]
+            cs = [c for c in cs if lo <= c and (hi is None or c <= hi)]
+            if cs:
+                return r.choice(cs)
         if getattr(self, '_in_addition', 0) and r.random() < self.o.big_in_additions:
             for c in r.sample([511, 512, 513, 600, 1000, 2048], 6):
                 if lo <= c and (hi is None or c <= hi):
@@ -279,15 +285,26 @@ class Gen:
                 n = min(n, 4)
                 if t['size']:
                     n = max(n, t['size'][0])
-            return bytes(r.getrandbits(8) if r.random() < 0.8 else r.choice([0, 255, 128]) for _ in range(n))
+            data = bytearray(r.getrandbits(8) if r.random() < 0.8 else r.choice([0, 255, 128]) for _ in range(n))
+            if n and r.random() < 0.1:
+                z = r.randint(1, n)
+                data[:z] = bytes(z)                                 # leading zero octets
+            return bytes(data)
         if k == 'bits':
-            n = self.length(t['size'])
+            n = self.length(t['size'], unit=8)
             if for_default:
                 n = min(n, 12)
                 if t['size']:
                     n = max(n, t['size'][0])
             nb = (n + 7) // 8
             data = bytearray(r.getrandbits(8) for _ in range(nb))
+            x = r.random()
+            if x < 0.12 and nb:                                   # leading / trailing / all zero or all one octets
+                z = r.randint(1, nb)
+                data[:z] = bytes(z)
+            elif x < 0.2 and nb:
+                z = r.randint(1, nb)
+                data[nb - z:] = bytes(z) if r.random() < 0.7 else b'\xff' * z
             if n % 8 and nb and (for_default or r.random() < 0.85):
                 data[-1] &= (0xff << (8 - n % 8)) & 0xff       # usually clean unused bits
             return (bytes(data), n)
@@ -483,7 +500,8 @@ class RefCtx:
 def type_text(t, ind=1, ctx=None, member_pos=False):
     if ctx is not None and ind > 1 and ctx.rng.random() < ctx.p_type:
         k = t['k']
-        if member_pos and k in ctx.con_kinds and t['size'] and ctx.rng.random() < ctx.p_con_on_ref:
+        if member_pos and (k in ctx.con_kinds or (k == 'str' and 'kmstr' in ctx.con_kinds and t['kind'] != 'UTF8String')) \
+                and t['size'] and ctx.rng.random() < ctx.p_con_on_ref:
             # T ::= <unconstrained>; use  T (SIZE(..))
             base = dict(t, size=None)
             body = _type_text(base, 1, ctx)
